@@ -1,0 +1,14 @@
+//go:build verif
+
+package operations
+
+// VerifOpLockHeld reports whether the disk operation lock is currently held (observation hook for verification harnesses)
+func (o *Operations) VerifOpLockHeld() bool {
+	if o.diskOperationLock.TryLock() {
+		o.diskOperationLock.Unlock()
+
+		return false
+	}
+
+	return true
+}
